@@ -54,6 +54,7 @@ def check(model, tier):
     _processor.r07_8_materialize_as(ctx, rule="R08.18")  # a node persisted twice under one name is rejected by the database
     _processor.r07_11_operands_processed(ctx, rule="R08.19")  # ORDER BY / LIMIT emission incl. the logical-column hooks of engine subclasses
     _sqlemit.r_select_never_empty(ctx, "R08.20")
+    sqlplace.r_subquery_keeps_its_slots(ctx, "R08.23")
     _sqlemit.r_logical_column_hooks(ctx, "R08.22")
     from ..rules import expressions as _expressions
 
